@@ -18,6 +18,7 @@ type AReq struct {
 	Body                []byte
 	Chunks              []int // chunk sizes (remainder goes into a last chunk)
 	Trailers            []Field
+	NoAnnounce          bool // trailer fields are sent without a Trailer header announcing them (the header is a SHOULD)
 	Expect100           bool
 	Close               bool
 	KeepAlive10         bool // HTTP/1.0 with Connection: keep-alive
@@ -65,7 +66,7 @@ func (a *AReq) Wire(r *mon.Rand) []byte {
 	case "chunked":
 		a.TEName = r.Str("Transfer-Encoding", "transfer-encoding", "TRANSFER-ENCODING", "tRaNsFeR-eNcOdInG")
 		extra = append(extra, Field{a.TEName, r.Str("chunked", "chunked", "Chunked")})
-		if len(a.Trailers) > 0 {
+		if len(a.Trailers) > 0 && !a.NoAnnounce {
 			var ks []string
 			seen := map[string]bool{}
 			for _, t := range a.Trailers {
@@ -313,6 +314,7 @@ func GenRequest(r *mon.Rand, tag string, i int, last bool, o GenOpts) *AReq {
 					}
 					a.Trailers = append(a.Trailers, Field{tn[k], tv})
 				}
+				a.NoAnnounce = r.Chance(4)
 			}
 		}
 		a.Expect100 = r.Chance(10)
